@@ -44,6 +44,15 @@ CHECKS = {
  "C19": dict(cat="exploration", tech="ambient-variation differential, strace syscall monitor over a sentinel-bracketed window, instrumented-iterator/grant monitors, Go-callback vs jq-definition differential",
    text="Option-less programs over every name/arity of `builtins` are run under two generated ambient states (environment, cwd, planted .jq files, stdin) and must be indistinguishable; capability terms must fail without their option; an strace session (deny-by-default scan of %file,%network,%process and reads of fd 0-2 between two sentinel syscalls, with a positive control session) watches 2000 (20000) programs; WithVariables/WithInputIter/WithEnvironLoader are checked with instrumented iterators and an independent model; 25k (500k) programs compare a Go callback (arity ranges 0..30, overlapping registrations, iterator and error behaviours) with the equivalent jq definition in 95 calling contexts. D7 (native arguments evaluated with path tracking on) is a known finding by call-site signature.",
    ref="4/C19"),
+ "C06": dict(cat="exploration", tech="Go race detector (sanitizer) over concurrent workloads + per-goroutine equality with the sequential baseline + fatal-error attribution by per-case journal",
+   text="Workers are built with -race. Each (program, input, mode) case runs alone first, then 8 goroutines x 10 (30) runs at once on a shared *Code or a shared *Query (concurrent compilation), on private input copies or on one shared input that a canary goroutine keeps deep-reading; every run must equal the baseline, the process' race log must gain no DATA RACE block with a gojq frame (attributed to the case by log growth), and a runtime fatal error (concurrent map writes...) kills the worker and is attributed by the journal. Programs: 110 hand-written delete/update/sort/regex programs over inputs and over literals folded into the code, a sweep of every builtin, 1.5k (12k) generated update-heavy programs, the whole corpus; 256k concurrent runs in quick.",
+   ref="4/C06", note=TRUST + " The race detector is happens-before based: it reports a race only when both accesses occur in the observed run."),
+ "C15": dict(cat="exploration", tech="differential monitor: real cmd/gojq process vs an expectation computed from the library plus an independent renderer and the documented status table",
+   text="28k (1.2M) runs of the real command over generated (argv, query, stdin) cases: stdout must be byte-equal to the concatenation, input by input, of the library's outputs rendered by the harness' own re-indenter/raw renderer with the selected terminator; stderr must carry exactly the due diagnostics (planted markers catch duplicates and losses); exit status must follow the table (0, 1/4 under -e, 2 flag-parser rejections, 3 parse/compile, 5 runtime/input errors, halt/halt_error code mod 256 with the message rule); --raw-output0 must reject NUL. Systematic part: all halt codes x messages, the -e table, error/halt planted at every position, every indent, malformed tails, input consumers; random part visits all 512 flag combinations.",
+   ref="4/C15"),
+ "C14": dict(cat="exploration", tech="reference-model monitor: code-point laws against []rune/unicode/utf8 and regex builtins against Go regexp driven directly, composition laws between the builtins, instruction-budget termination check",
+   text="Subjects over a mixed-width alphabet exhaustive to length 4 (4681) plus random longer ones; positions: length/explode/.[i]/.[i:j]/index/rindex/indices against the same operation on []rune; regex: 225+ grammar-generated regexes x 6-10 flag sets: every match/capture (offset,length) must slice the subject to its string, test iff a match exists, capture/scan/splits/split/sub/gsub must be the documented compositions of (global) matches, a named group around the whole regex substituted back must rebuild the subject, and each builtin must terminate within 50000+5000*n instructions, including regexes matching the empty string. Thorough runs the full subjects x regexes x flags product (8.8M).",
+   ref="4/C14"),
 }
 
 checks = []
